@@ -531,6 +531,28 @@ func (s *Sim) CloseAllConns() {
 	}
 }
 
+// DialRec is one dial attempt as seen by the network.
+type DialRec struct {
+	At      time.Duration `json:"at"`
+	EndAt   time.Duration `json:"end_at"`
+	Step    int           `json:"step"`
+	Role    string        `json:"role"`
+	Target  string        `json:"target"`
+	Outcome string        `json:"outcome"` // ok | refused | timeout | canceled
+}
+
+func (s *Sim) recordDial(r DialRec) {
+	s.netMu.Lock()
+	s.dials = append(s.dials, r)
+	s.netMu.Unlock()
+}
+
+func (s *Sim) Dials() []DialRec {
+	s.netMu.Lock()
+	defer s.netMu.Unlock()
+	return append([]DialRec(nil), s.dials...)
+}
+
 // Dialer returns a DialContext function for a role (stable part of conn keys).
 // srcIP is the source address the acceptor sees. connectTimeout emulates the
 // net.Dialer.Timeout the production dialer would apply (0 = none).
@@ -601,6 +623,11 @@ func (s *Sim) dial(ctx context.Context, role, srcIP, addr string, connectTimeout
 			done <- res{nil, dialErr(os.NewSyscallError("connect", syscall.ECONNREFUSED))}
 		}
 	})
+	rec := DialRec{At: s.Now(), Step: s.Steps(), Role: role, Target: addr}
+	defer func() {
+		rec.EndAt = s.Now()
+		s.recordDial(rec)
+	}()
 	var to <-chan time.Time
 	if connectTimeout > 0 {
 		t := time.NewTimer(connectTimeout)
@@ -609,15 +636,21 @@ func (s *Sim) dial(ctx context.Context, role, srcIP, addr string, connectTimeout
 	}
 	select {
 	case r := <-done:
+		rec.Outcome = "ok"
+		if r.err != nil {
+			rec.Outcome = "refused"
+		}
 		return r.c, r.err
 	case <-ctx.Done():
 		abandoned.Store(true)
+		rec.Outcome = "canceled"
 		err := ctx.Err()
 		if errors.Is(err, context.DeadlineExceeded) {
 			return nil, dialErr(timeoutError{})
 		}
 		return nil, dialErr(err)
 	case <-to:
+		rec.Outcome = "timeout"
 		abandoned.Store(true)
 		return nil, dialErr(timeoutError{})
 	}
